@@ -49,7 +49,7 @@ LEVEL_TEXT = (
 )
 LEVEL_NOTE = (
     "trusted: the derivation of the RG identity in vf/ref/c25_rgseam.py (validated on the unchanged tree: "
-    "the unpolarised elements satisfy it through third order to 2e-5), the flavour rotation of "
+    "the unpolarised elements satisfy it to 5e-14 at first and second order and to 9e-5 at third order), the flavour rotation of "
     "Matching.rst, expanded-coupling solutions; decided on the lattices only"
 )
 FLOOR_NONTRIVIAL = 40
@@ -218,6 +218,8 @@ def _rg_derivative(case):
                     nchecks += 1
                     key = f"max_rel_rg_order{k+1}"
                     mx[key] = max(mx.get(key, 0.0), rel)
+                    if rel <= TOL_RG[k + 1]:
+                        mx[key + "_of_passing_entries"] = max(mx.get(key + "_of_passing_entries", 0.0), rel)
                     if not rel <= TOL_RG[k + 1]:
                         res.fail(
                             f"rg-derivative/{kind}/A{k+1}/entry={ENTRY[i]}{ENTRY[j]}",
